@@ -24,8 +24,9 @@ ASSUMPTIONS = [
     "the plugin chain's answer for a -p<...> argument is a function of that argument; the clock is an input",
     "int is 32 bits with two's complement wrap-around in AtoI (what gcc emits; C leaves it undefined), size_t 64 bits",
     "documented numeric ranges: repeat count 1..2^31-1, shuffle seed 1..2^32-1",
+    "a plugin's parseArguments answer is a function of av[index]; plugin names in the registry differ from the two RunAllTests installs",
 ]
-RULE = ("rendered stream: lists of 0-9 documented options (all 11 option families, attached and separated forms, values "
+RULE = ("clock sweep: bare -s with the clock at 0, 2^32, 2^33, 1, 2^32-1, ... in every run; rendered stream: lists of 0-9 documented options (all 11 option families, attached and separated forms, values "
         "from a vocabulary overlapping the 12-test probe registry plus random identifiers, repeated and shuffled); "
         "malformed stream: raw arguments from arbitrary bytes, lone prefixes, every option literal with random tails, "
         "numbers with signs/blanks/overflow, empty strings, options as last argument, 1-6 kB arguments, mixed with valid "
@@ -147,7 +148,7 @@ def gen_bad(rng):
 def gen_rendered(rng):
     ops = []
     if rng.random() < 0.3:
-        ops.append("time %d" % rng.choice([0, 1, 4294967296, 4294967297, 77, rng.randint(0, 2 ** 40)]))
+        ops.append("time %d" % rng.choice(CLOCKS + [77, rng.randint(0, 2 ** 40)]))
     listing_ok = rng.random() < 0.25
     for _ in range(rng.choice([0, 1, 1, 2, 2, 3, 3, 4, 5, 6, 9])):
         desc, args = gen_opt(rng, listing_ok)
@@ -173,7 +174,8 @@ LONE = ["-", "--", "-s", "-t", "TEST(", "TEST(a", "TEST(a,", "TEST(a, ", "TEST(a
         "-t", "a.b.c", "-ta.b.c", "-t.b", "-ta.", "-ta.b.", "-t..", "-ta..b", "-st", "-xt", "-xst", "-x", "-xs", "-l", "-o", "-ox",
         "-onormal ", "-oJUnit", "-k", "-r", "-r0", "-r-1", "-r+3", "-r 2", "-rx", "-ri1", "-s0", "-s00", "-sx", "-s-1", "-s 5",
         "-s4294967296", "-s4294967297", "-r4294967296", "-r2147483648", "-r99999999999", "-r-2147483648", "-pacc", "-paccX",
-        "-pfoo", "-pp", "-vvv", "-ci ", "-H", "", " ", ".", ",", ")", "(", "0", "1", "3", "-1", "+2", " 4", "\t2", "007", "12abc",
+        "-pfoo", "-pp", "-pb", "-pbx", "-pc", "-pc1", "-pmemoryreport=", "-pmemoryreport=normal", "-pmemoryreport=zz",
+        "-pxmemoryreport=", "-pb-pmemoryreport=", "-vvv", "-ci ", "-H", "", " ", ".", ",", ")", "(", "0", "1", "3", "-1", "+2", " 4", "\t2", "007", "12abc",
         "Alpha", "one", "Alpha.one", "-g", "-sg", "-xg", "-xsg", "-n", "-sn", "-xn", "-xsn"]
 
 
@@ -184,7 +186,7 @@ def raw_arg(rng):
     if x < 0.50:
         lit = rng.choice(LITERALS)
         tail = rng.choice(["", "", "x", "0", "1", "3", ".", "a.b", "a.b.c", ",", "g, n)", "Alpha", "one", "Alpha.one", " ", "-",
-                           "\xff", "t", "s", "g", "n", "i", "(", "Alpha, x)", "junit", "teamcity", "normal", "eclipse", "acc"])
+                           "\xff", "t", "s", "g", "n", "i", "(", "Alpha, x)", "junit", "teamcity", "normal", "eclipse", "acc", "b", "c", "memoryreport=x"])
         return (lit + tail).encode("latin-1")
     if x < 0.62:
         return bytes(rng.randint(1, 255) for _ in range(rng.choice([0, 1, 1, 2, 3, 5, 8, 20])))
@@ -227,6 +229,27 @@ def gen_prefix_sweep():
     return out
 
 
+CLOCKS = [0, 2 ** 32, 2 ** 33, 1, 2 ** 32 - 1, 2 ** 32 + 1, 3 * 2 ** 32]
+
+
+def gen_clock_sweep(rng):
+    """bare -s (no seed) with the platform clock at 0, multiples of 2^32 and their neighbours: the default seed
+    is the clock truncated to unsigned int and must never be 0 (documented: -s [<seed>] shuffles)"""
+    out = []
+    bare = opt_line(["A", "shuffle", "-"], ["-s"])
+    for t in CLOCKS:
+        around = [[], [opt_line(["A", "flag", "v"], ["-v"])], [opt_line(["A", "group", "sub", hx("Alpha")], ["-gAlpha"])]]
+        for before in around:
+            for after in around:
+                out.append(["time %d" % t] + before + [bare] + after)
+        out.append(["time %d" % t, bare, bare])
+        # a random documented option list with a bare -s somewhere in it
+        ops = [opt_line(*gen_opt(rng, False)) for _ in range(rng.randint(0, 4))]
+        ops.insert(rng.randint(0, len(ops)), bare)
+        out.append(["time %d" % t] + ops)
+    return out
+
+
 def generate(rng, tier):
     n = 1500 if tier == "quick" else 20000
     out = []
@@ -236,6 +259,8 @@ def generate(rng, tier):
         out.append(("malformed", gen_malformed(rng)))
     for ops in gen_prefix_sweep():
         out.append(("sweep", ops))
+    for ops in gen_clock_sweep(rng):
+        out.append(("clock", ops))
     return out
 
 
@@ -279,8 +304,8 @@ def observe(r, rep):
             rep.count("branch.shuffle")
         elif l == "skipped":
             rep.count("branch.runner_skipped_repeat_gt_3")
-        elif l.startswith("plugin "):
-            rep.count("branch.plugin_asked")
+        elif l.startswith("chain "):
+            rep.count("branch.plugin_chain_" + l.split()[-1])
         elif l == "printed help":
             rep.count("branch.help_printed")
         elif l == "printed usage":
@@ -299,7 +324,7 @@ def observe(r, rep):
             rep.count("bad." + w[1])
 
 
-LEVEL_TEXT = ("Machine-checked Lean 4 theorems (34, axioms propext/Classical.choice/Quot.sound at most) over an executable model "
+LEVEL_TEXT = ("Machine-checked Lean 4 theorems (59, axioms propext/Classical.choice/Quot.sound at most) over an executable model "
               "of CommandLineArguments::parse and of the runner that applies the configuration. Proved for ALL inputs of the "
               "stated kind, no bound: parse_render (every list of documented options, any order and multiplicity, attached or "
               "separated form, arbitrary identifier-like values, counts 1..2^31-1, seeds 1..2^32-1: accepted, configuration = the "
@@ -309,7 +334,12 @@ LEVEL_TEXT = ("Machine-checked Lean 4 theorems (34, axioms propext/Classical.cho
               "the unterminated TEST(abc form is accepted harmlessly; totality for every byte-string argument vector (Lean's "
               "termination checker, total list operations only) and stored_strings_from_args (every stored filter text / package "
               "name is a contiguous part of an argument); a rejected vector prints help/usage and runs nothing, an accepted one "
-              "runs exactly the selected tests repeat times (reversed with -b, ignored ones only with -ri). The if/else-if chain of "
+              "runs exactly the selected tests repeat times (reversed with -b, ignored ones only with -ri). Also proved: the plugin "
+              "chain for -p<x> (asked head first until the first accepts; default plugins refuse; only MemoryReporterPlugin "
+              "overrides, regenerated), the RunAllTests(ac, av) glue (leak and pointer plugins installed and removed around every "
+              "outcome, -h returns 1 without running, return value), every value option as last argument or followed by an empty "
+              "argument, and that help()/usage() mention exactly the options (usage: all; help: all but -ri, kept visible as a "
+              "false full statement with its witness) and every mentioned option is dispatched. The if/else-if chain of "
               "parse() and the eight add...Filter functions are regenerated from the source on every run and proved equal to the "
               "model's tables (decide); the other helpers are pinned by normalised text. The model is tied to the code by a "
               "differential harness running the real parser and CommandLineTestRunner under ASan/UBSan on rendered, documented-"
